@@ -27,7 +27,7 @@ from vlib.common import ToolError, build_wild, log, run_wild, save_replay, scrat
 
 PROP = "C36"
 META = {
-    "ready": False,
+    "ready": True,
     "level": "model_checking",
     "technique": "TLA+ decision model (GNU ld's PT_GNU_STACK and GNU-property merge rules vs a step-by-step transcription of wild's) exhaustively checked by TLC over bounded scenario spaces; TLC-enumerated scenarios replayed into the real wild and the real GNU ld 2.40 (three-way vote spec / GNU ld / wild)",
     "level_text": "For all link commands with <= 3 inputs (objects, archive members extracted or not, shared objects), every combination of .note.GNU-stack states and -z execstack/noexecstack sequences, and x86 / generic GNU property types of the AND, OR and OR-AND classes (incl. the class range boundaries, 2-bit values, absent notes, duplicates, several types at once) TLC shows that wild's merge procedure as transcribed yields GNU ld's result outside three exactly characterised deviation classes; a seeded stratified selection of these scenarios (all of the small ones in the thorough tier) is linked by the real wild and the real GNU ld and the observed PT_GNU_STACK flags and PT_GNU_PROPERTY contents must agree with the spec and with each other.",
@@ -437,7 +437,7 @@ def run(ctx):
     build_wild()
     corrupt = os.environ.get("VERIF_C36_CORRUPT")  # detection demonstration only: "stack" | "props" | "spec"
     # number of REPLAY records linked by wild and GNU ld (VERIF_C36_BUDGET: time-boxed development runs only)
-    budget = int(os.environ.get("VERIF_C36_BUDGET", "400" if ctx.quick else "8000"))
+    budget = int(os.environ.get("VERIF_C36_BUDGET", "400" if ctx.quick else "5000"))
     chosen = select(records, rng, budget)
     if corrupt == "spec":
         # falsify one prediction of the spec: must be reported as a tool error (spec != GNU ld), never as a violation
